@@ -123,7 +123,15 @@ func (module *CachingEvaluator) getConsumerStatus(request *protocol.EvaluatorReq
 		zap.Bool("showall", request.ShowAll),
 	)
 
-	result, err := module.cache.Query(cacheKey(request.Cluster, request.Group))
+	// An expire-cache of zero turns caching off. The cache itself would take a zero duration to mean that a result never
+	// expires, and would keep serving the first result for a group forever
+	var result interface{}
+	var err error
+	if module.expireCache > 0 {
+		result, err = module.cache.Query(cacheKey(request.Cluster, request.Group))
+	} else {
+		result, err = module.evaluateConsumerStatus(cacheKey(request.Cluster, request.Group))
+	}
 	if err != nil {
 		requestLogger.Info(err.Error())
 
